@@ -970,6 +970,10 @@ def readGraph(input_file,
                 G.remove_node('\\n')
             except networkx.exception.NetworkXError:
                 pass
+            # dot identifiers are strings: vertices written as numbers
+            # must be ordered as numbers (not '10' < '2')
+            if all(isinstance(u, str) and u.isdigit() for u in G.nodes()):
+                G = networkx.relabel_nodes(G, {u: int(u) for u in G.nodes()})
             G = graph_class.normalize(G)
         except TypeError:
             raise ValueError('Parse Error in dot file')
